@@ -174,7 +174,7 @@ def make_blocks(indices, sectors, fill=("seq", 1), dtype="float64"):
             a = rng.normal(size=shapes[s]) + (1j * rng.normal(size=shapes[s]) if cplx else 0)
             if fill[0] == "zerocol" and len(shapes[s]) == 2:
                 a[:, 0] = 0
-            if fill[0] == "zeroblock" and k == 0:
+            if fill[0] == "zeroblock" and k % 2 == 0:
                 a = a * 0
             store[s] = np.asarray(a, dtype=dtype)
         return {s: store[s] for s in sectors}
